@@ -4830,9 +4830,7 @@ impl Machine {
                         break
                     }
                     Err(std::sync::mpsc::RecvTimeoutError::Timeout) => {
-                        if self.machine_st.check_for_interrupt() {
-                            break;
-                        }
+                        self.machine_st.interrupt_as_error()?;
                     }
                   Err(_) => {
                       self.machine_st.fail = true;
@@ -7199,9 +7197,7 @@ impl Machine {
                              }
                             Err(ref e) if e.kind() == ErrorKind::WouldBlock => {
                                 std::thread::sleep(std::time::Duration::from_millis(200));
-                                if self.machine_st.check_for_interrupt() {
-                                    break;
-                                }
+                                self.machine_st.interrupt_as_error()?;
                             }
                             Err(_) => {
                                 println!("IO error");
